@@ -270,6 +270,8 @@ def run_case(case):
         cfg["rc_at_src"] = dict(long_ivl)
     if case["t"] == "late":
         cfg.update({"ack_limit": 1, "nak_limit": 1, "check_limit": 1})
+    if case["t"] == "random":
+        cfg["scribble_pdus"], cfg["scribble_user"] = case["seed"] % 5 == 0, case["seed"] % 7 == 0
     viol, obs = [], {}
     with World(cfg) as w:
         if not install_spy(w):
